@@ -18,7 +18,7 @@ REPLAY_BIN = os.path.join(VERIF, 'replay', 'target', 'debug', 'memterm-replay')
 def units_for(prop):
     us = []
     for p in sorted(glob.glob(os.path.join(D.CONTRACTS, '*.spec'))):
-        t = open(p).read()
+        t = '\n'.join(l for l in open(p).read().split('\n') if not l.startswith('@import') and not l.startswith('@@'))
         if re.search(r'\b%s\b' % prop, t) or prop == 'C01':
             us.append(os.path.basename(p)[:-5])
     return us
